@@ -13,6 +13,8 @@ Tasks
                 mask or mimic a wrong term.  Euler: constant right-hand side.
   adaptive      rk45 / rk23 forward and backward (same or different backward options) on the closed-form families and on
                 chains; tolerance proportional to the requested forward and backward tolerances.
+  switched      rk45 on a right-hand side with Python control flow on t (a parameter and the explicit time dependence are
+                active on one side of a switching time only): which tensors enter the dynamics changes along the trajectory.
   fixed_conv    fixed-step methods on coupled families (linear, rotation, logistic): the discrepancy to the exact
                 sensitivities must shrink by >= 2^(p-1) (euler: 1.5) when every interval is halved (fine grids, >= 16
                 steps), or be at the rounding floor.
@@ -35,7 +37,7 @@ RULE = ("exact_chain: chain kind x forward method x backward method (same / othe
         "containers, siblings; unused tensor; non-tensor parameter; elementwise-derived parameters) x which of leaves/y0/ts require grad x cotangent "
         "pattern x grid (2..5 points, both directions, ragged, span 1e-3..30, offsets) x tensor/tuple state x order 1/2. adaptive: families with closed "
         "forms x rk45/rk23 x backward options (same, other tolerances, other method). fixed_conv: coupled families on 16..32-step grids and their "
-        "halvings. Non-trivial = at least one requested gradient has a non-zero reference and at least one of {leaf, ts} requires grad; distinct by canonical case.")
+        "halvings. switched: piecewise right-hand side (Python control flow on t) x side x parameter placement x grid direction x which inputs require grad. Non-trivial = at least one requested gradient has a non-zero reference and at least one of {leaf, ts} requires grad; distinct by canonical case.")
 ASSUMPTIONS = [
     "float64; reference = torch autograd through closed forms (matrix_exp, polynomial algebra, explicit formulas)",
     "exact_chain tolerance: 1e4*eps*(1+|t0|/span)*nt*(magnitude of the abs-value evaluation of the solution polynomials and cotangents); "
@@ -610,9 +612,132 @@ def fixed_conv_st(tier):
     return s()
 
 
+# ------------------------------------------------------------------------------------------------------------------
+# task switched: right-hand sides with Python control flow on t (a term that is active on part of the time axis only)
+
+def run_switched(case):
+    """dy/dt = -(p1 + chi(t) p2 (t - tc)^2) y elementwise, chi = [t < tc] ("lt") or [t > tc] ("gt") decided by Python control
+    flow inside the user function: which tensors enter the dynamics changes along the trajectory (p2 and the explicit
+    t-dependence are absent on one side of tc).  Closed form y = y0 exp(-p1 (t - t0) - p2 (G(t) - G(t0))),
+    G(t) = -max(tc - t, 0)^3 / 3 (lt) or max(t - tc, 0)^3 / 3 (gt), differentiable in p1, p2, y0 and every time point."""
+    from xitorch.integrate import solve_ivp
+    torch.manual_seed(0)
+    g = gen.seeded(case["seed"])
+    m = case["m"]
+    side = case["side"]
+    tc = float(case["tc"])
+    req = case["req"]
+    place = case["place"]
+    mk = (lambda v, r: torch.nn.Parameter(v, requires_grad=bool(r))) if place != "explicit" else (lambda v, r: v.requires_grad_(bool(r)))
+    p1 = (0.2 + torch.rand((m,), generator=g, dtype=DT))
+    p2 = (0.5 + torch.rand((m,), generator=g, dtype=DT))
+    p1 = p1.requires_grad_(bool(req[0])) if place in ("explicit", "mixed") else mk(p1, req[0])
+    p2 = mk(p2, req[1])
+    y0 = (0.5 + torch.rand((m,), generator=g, dtype=DT)).requires_grad_(bool(case["y0req"]))
+    tvals = [float(t) for t in case["ts"]]
+    ts = torch.tensor(tvals, dtype=DT).requires_grad_(bool(case["tsreq"]))
+
+    def active(t):
+        return bool(t < tc) if side == "lt" else bool(t > tc)
+
+    def rhs_core(t, y, a, b):
+        if active(t):
+            return -(a + b * (t - tc) ** 2) * y
+        return -a * y
+    if place == "explicit":
+        fcn, params = rhs_core, (p1, p2)
+    else:
+        class Mod(torch.nn.Module):
+            def __init__(self):
+                super().__init__()
+                self.b = p2
+                if place == "nn":
+                    self.a = p1
+
+            def forward(self, t, y, *ex):
+                return rhs_core(t, y, ex[0] if place == "mixed" else self.a, self.b)
+        fcn = Mod()
+        params = (p1,) if place == "mixed" else ()
+    atol, rtol = 1e-10, 1e-9
+    opts = {"atol": atol, "rtol": rtol}
+    method = case["method"]
+    labels = ["task=switched", "fwd=" + method, "side=" + side, "place=" + place, "order=%d" % case["order"],
+              "dir=" + ("inc" if tvals[-1] > tvals[0] else "dec"), "nt=%d" % len(tvals),
+              "last_active=%s" % active(torch.tensor(tvals[-1]))]
+    wrt = [t for t, r in ((p1, req[0]), (p2, req[1]), (y0, case["y0req"]), (ts, case["tsreq"])) if r]
+    names = [n for n, r in (("p1", req[0]), ("p2", req[1]), ("y0", case["y0req"]), ("ts", case["tsreq"])) if r]
+    if not wrt:
+        return discard("nothing_to_differentiate", labels)
+    y = xt_call(solve_ivp, fcn, ts, y0, params=params, method=method, _where="forward", **opts)
+
+    def G(t):
+        if side == "lt":
+            return -torch.clamp(tc - t, min=0.0) ** 3 / 3.0
+        return torch.clamp(t - tc, min=0.0) ** 3 / 3.0
+    tt = ts.unsqueeze(-1)
+    exact = y0 * torch.exp(-p1 * (tt - tt[0]) - p2 * (G(tt) - G(tt[0])))
+    W = torch.randn(exact.shape, generator=g, dtype=DT)
+    if case["cot"] == "last":
+        W[:-1] = 0
+    Y = float(exact.detach().abs().max())
+    verr = float((y.detach() - exact.detach()).abs().max())
+    if not verr <= 1e-6 * (1 + Y):
+        return violation("value", "trajectory differs from the closed form by %.3e" % verr, labels)
+    second = case["order"] == 2
+    loss, lref = (y * W).sum(), (exact * W).sum()
+    if not loss.requires_grad:
+        return violation("no_graph", "result does not require grad although %s do" % names, labels)
+    got = zeros_if_none(xt_call(torch.autograd.grad, loss, wrt, create_graph=second, allow_unused=True, _where="backward"), wrt)
+    ref = ref_grads(lref, wrt, create_graph=second)
+    nonzero = False
+    for order in ((1, 2) if second else (1,)):
+        if order == 2:
+            C = [torch.randn(x.shape, generator=g, dtype=DT) for x in wrt]
+            terms = [(c * gk).sum() for c, gk in zip(C, got) if gk.requires_grad]
+            rterms = [(c * rk).sum() for c, rk in zip(C, ref) if rk.requires_grad]
+            if not terms:
+                if rterms:
+                    return violation("no_second_graph", "create_graph=True produced gradients without graph", labels)
+                break
+            got = zeros_if_none(xt_call(torch.autograd.grad, sum(terms), wrt, allow_unused=True, _where="backward2"), wrt)
+            ref = ref_grads(sum(rterms), wrt, create_graph=False) if rterms else [torch.zeros_like(x) for x in wrt]
+        Gm = max([float(r.detach().abs().max()) for r in ref] + [0.0])
+        tol = 2e3 * 2 * (atol + rtol * (1 + Y + Gm)) * (1 + Y + Gm) * (10.0 if order == 2 else 1.0)
+        for nm, a, b_ in zip(names, got, ref):
+            err = float((a.detach() - b_.detach()).abs().max())
+            nonzero = nonzero or float(b_.detach().abs().max()) > 0
+            if not err <= tol:
+                return violation("grad%d_%s" % (order, nm), "order-%d gradient w.r.t. %s differs from the closed form by %.3e (tol %.3e); got %s ref %s; ts=%s tc=%g side=%s" % (
+                    order, nm, err, tol, a.detach().reshape(-1)[:3].tolist(), b_.detach().reshape(-1)[:3].tolist(), tvals, tc, side), labels)
+    return ok(labels, nontrivial=nonzero)
+
+
+@st.composite
+def switched_st(draw, tier="quick"):
+    nt = draw(st.integers(2, 5))
+    incr = [draw(st.integers(1, 6)) for _ in range(nt - 1)]
+    d = draw(st.sampled_from([1, 1, -1]))
+    t0 = draw(st.sampled_from([0.0, -1.0, 0.5]))
+    span = draw(st.sampled_from([1.0, 2.0]))
+    tot = float(sum(incr))
+    acc, ts = 0, [t0]
+    for k in incr:
+        acc += k
+        ts.append(t0 + d * span * acc / tot)
+    frac = draw(st.sampled_from([0.23, 0.37, 0.53, 0.71, 0.89]))          # never a grid point (increments are k/tot, k integer <= 24)
+    tc = t0 + d * span * frac
+    req = [draw(st.sampled_from([True, True, False])), draw(st.sampled_from([True, True, True, False]))]
+    return {"m": draw(st.integers(1, 3)), "ts": ts, "tc": tc, "side": draw(st.sampled_from(["lt", "gt"])),
+            "place": draw(st.sampled_from(["explicit", "nn", "mixed"])), "method": "rk45",
+            "req": req, "y0req": draw(st.booleans()), "tsreq": draw(st.sampled_from([True, False])),
+            "cot": draw(st.sampled_from(["dense", "last"])), "order": draw(st.sampled_from([1, 1, 2])),
+            "seed": draw(st.integers(0, 2 ** 31 - 1))}
+
+
 def tasks(tier):
     return [
         Task("exact_chain", strategy=exact_chain_st(tier), run=run_exact_chain, examples={"quick": 1400, "thorough": 14000}),
         Task("adaptive", strategy=adaptive_st(tier), run=run_adaptive, examples={"quick": 240, "thorough": 2000}),
         Task("fixed_conv", strategy=fixed_conv_st(tier), run=run_fixed_conv, examples={"quick": 180, "thorough": 1500}),
+        Task("switched", strategy=switched_st(tier), run=run_switched, examples={"quick": 200, "thorough": 2000}),
     ]
